@@ -199,7 +199,7 @@ def cover_summary(cover, detail=False):
 def replay_path(pid, v):
     blob = json.dumps({"monitor": v["monitor"], "case": v["case"]}, sort_keys=True, default=repr)
     sha = hashlib.sha1(blob.encode()).hexdigest()[:16]
-    d = os.path.join(VERIF, "replays", pid)
+    d = os.path.join(os.environ.get("BCV_REPLAY_DIR") or os.path.join(VERIF, "replays"), pid)
     os.makedirs(d, exist_ok=True)
     return os.path.join(d, sha + ".json")
 
